@@ -554,7 +554,7 @@ pub fn property() -> Property {
                 text_f: None,
                 cases_quick: 1_500,
                 cases_thorough: 40_000,
-                max_choices: 900,
+                max_choices: 1050,
             },
             SubCheck {
                 name: "first_use_text",
